@@ -126,6 +126,44 @@ theorem C15_history (ops : List Op)
   obtain ⟨st', h1, h2⟩ := C15_isolation (Inv.history_from_create ops) hk data now j c
   exact ⟨st', h1, fun x' z' k' hk' hne => (h2 x' z' k' hk' hne).2.2⟩
 
+/-- `C15_history_any_order`: `C15_history` and `C15_isolation_any_order` together — for every state reachable from
+    `CreateWriter`, a crash at any point of the next `WriteSector`, and every sequence of reads on the re-opened
+    Region (the half-written chunk may be read first, with any outcome): reads change nothing, and each read of
+    another chunk returns the bytes the history last wrote to it (or absence). -/
+theorem C15_history_any_order (ops : List Op)
+    {x z : Int} {k : Nat} (hk : idx? x z = some k) (data : ByteArray) (now : BitVec 32) (j c : Nat) :
+    ∃ st', load (crashImage (ops.foldl step createWriter.1).file
+        (writeSector (ops.foldl step createWriter.1) x z data now).2.2 j c) = .ok st' ∧
+      ∀ (rs : List (Int × Int)), (runReads st' rs).2 = st' ∧
+        ∀ (i : Nat) (hi : i < rs.length) (k' : Nat), idx? rs[i].1 rs[i].2 = some k' → k' ≠ k →
+          (runReads st' rs).1[i]? = some (match (ops.foldl absStep (fun _ => none)) k' with
+            | none => .err
+            | some d => if d.size = 0 then .err else .ok d) :=
+  C15_isolation_any_order (Inv.history_from_create ops) hk data now j c
+
+/-- `C15_writes_are_the_write`: the journal of physical writes the crash model cuts IS the write: whatever
+    `WriteSector` returns (ok, `ErrTooLarge`, panic on bad coordinates), the file of the state it leaves is the old
+    file with exactly the returned writes applied in order — the model has no other way to change the file. -/
+theorem C15_writes_are_the_write (st : Region) (x z : Int) (data : ByteArray) (now : BitVec 32) :
+    (writeSector st x z data now).2.1.file = applyWrites st.file (writeSector st x z data now).2.2 := by
+  cases h : idx? x z with
+  | none => simp only [writeSector, h]; simp only [applyWrites, List.foldl_nil]
+  | some k =>
+    simp only [writeSector, h]
+    split
+    · simp only [applyWrites, List.foldl_nil]
+    · split <;> simp only []
+
+/-- `C15_no_crash_image`: the crash model's far end point — with every write applied (`j` at or past the end of
+    the journal, any `c`) the crash image is the file of the completed `WriteSector`, so `C15_isolation` at that
+    point speaks about the same file as C14's completed-write theorems. -/
+theorem C15_no_crash_image (st : Region) (x z : Int) (data : ByteArray) (now : BitVec 32) (j c : Nat)
+    (hj : (writeSector st x z data now).2.2.length ≤ j) :
+    crashImage st.file (writeSector st x z data now).2.2 j c = (writeSector st x z data now).2.1.file := by
+  rw [C15_writes_are_the_write]
+  unfold crashImage
+  rw [List.getElem?_eq_none hj, List.take_of_length_le hj]
+
 /-- non-vacuity: the hypotheses are met by every state reachable from `CreateWriter`, e.g. the fresh region -/
 example : Inv createWriter.1 (fun _ => none) := Inv.create
 example : idx? 3 5 = some 163 := by decide
